@@ -277,7 +277,15 @@ class HDef(Base):
         return c
 
     def judge(self, kind, out):
-        return self.exc(out) if kind == "exc" else self.std(out, FULL_FIELDS)
+        if kind == "exc":
+            return self.exc(out)
+        fs = self.std(out, FULL_FIELDS)
+        pl = out.metadata.plaintiff
+        if isinstance(pl, TStr) and pl.single() is not None and out.full_span_start is not None:
+            lo, hi = pl.single()
+            # C01: "its full span starts at the extracted plaintiff" (when the plaintiff text is non-empty)
+            fs.append(self.check("C01:defn:full_span_starts_at_extracted_plaintiff", z3.Implies(hi > lo, lift_int(out.full_span_start) == lo), self.witness))
+        return fs
 
 
 class HPre(Base):
@@ -666,6 +674,9 @@ def oracle_text(text, tokenizer=None):
             bad.append("C02:envelope")
         if not text[s0:s1].startswith(c.matched_text()):
             bad.append("C02:span_covers_matched_text")
+        pl = getattr(c.metadata, "plaintiff", None)
+        if pl and c.full_span_start is not None and not text[f0:].startswith(pl):
+            bad.append("C01:full_span_starts_at_extracted_plaintiff")
         if not (p0 <= s0 and s1 <= p1 and 0 <= p0 and p1 <= n):
             bad.append("C02:pincite_span_contains_span")
         pin = getattr(c.metadata, "pin_cite", None)
@@ -705,7 +716,7 @@ def search_corpus(prefixes, limit=3):
 
 # ---------------------------------------------------------------- property drivers
 QUICK_PARTS = ["post", "defn", "pre", "short", "supra", "id", "law", "journal", "par", "ref"]
-PREFIX = {"C03lemma": ["C03lemma:"], "C02": ["C02:"], "C17": ["C17:", "lemma:"], "C04": ["C04:"], "C18": ["C18:"], "C19": ["C19:"]}
+PREFIX = {"C01": ["C01:"], "C03lemma": ["C03lemma:"], "C02": ["C02:"], "C17": ["C17:", "lemma:"], "C04": ["C04:"], "C18": ["C18:"], "C19": ["C19:"]}
 
 
 def explore_parts(rep, pid, parts=None):
